@@ -442,7 +442,6 @@ def map_histories(ctx, rasters):
     for h in range(ctx.n(25, 300)):
         case = gen(ctx.rng, n=ctx.rng.randrange(2, 7), force_map=True)
         ibm = None; state = None
-        cells = None
         for s_ in range(ctx.rng.randrange(3, 8)):
             res = ibmrun.sed_run(case, ctx.sub_seed(), drv if use_drv else None, ibmrun.tail_injector(ctx.rng, 0.1),
                                  ibm=ibm, state=state)
@@ -451,8 +450,6 @@ def map_histories(ctx, rasters):
             ctx.case(key=(name, "map_hist", h, s_, repr(ibmrun.case_summary(case))), nontrivial=True)
             ctx.branch("sedimentation.map_history_step")
             now = list(res["meta"]["tc"])
-            if cells is not None and len(cells) == len(now) and cells != now:
-                ctx.branch("sedimentation.map_history_threshold_of_a_particle_changed")
             oracle(ctx, name, case, res)
             pending.append((name, case, res))
             case = c05.refresh_case(name, case, res)
@@ -467,11 +464,11 @@ def map_histories(ctx, rasters):
                     Hn = float(env.depth(X[i], Y[i]))
                     Z[i] = Hn * (1 - 2.0 ** -40) if ctx.rng.random() < 0.5 else min(Z[i], Hn)
             cells = list(ibmrun.sed_taucrit_per_particle(case, np.asarray(X), np.asarray(Y))[0])
+            if cells != now:
+                ctx.branch("sedimentation.map_history_particle_carried_to_a_cell_with_another_threshold")
             case = c05.between_steps(ctx, name, case, state)
             if len(case["x"]) == 0:
                 break
-            if len(cells) != len(case["x"]):
-                cells = None
             case = change_forcing(ctx, name, case, state)
     if use_drv:
         replies = drv.run()
